@@ -447,3 +447,33 @@ fn gs3_player_name_only_unit() {
     core::mem::forget(r);
 }
 // (removed from the tier: never finished inside the thorough cap - see c04.bounds.json) c04_t_gs3_player_name_only_unit
+
+/// The password flag in its usual spellings (concrete: with the case of each letter
+/// symbolic the `parse::<bool>` / `parse::<u8>` chain over symbolic text exceeded the
+/// time cap): lower, capitalised and upper case, and the numerals. The flag is read,
+/// the variable is consumed.
+#[cfg(kani)]
+fn password_spelling(text: &str, want: bool) {
+    let mut m = gamedig::verif_hook::collections::HashMap::new();
+    m.insert("password".to_string(), text.to_string());
+    m.insert("x".to_string(), "y".to_string());
+    let r = gamedig::verif_hook::unit::gamespy_has_password(&mut m);
+    match &r {
+        Ok(flag) => assert!(*flag == want),
+        Err(_) => assert!(false),
+    }
+    assert!(m.len() == 1 && expect(&m, "x", "y"));
+    core::mem::forget((r, m));
+}
+c04!(c04_password_spellings_true, {
+    password_spelling("true", true);
+    password_spelling("True", true);
+    password_spelling("TRUE", true);
+    password_spelling("1", true);
+});
+c04!(c04_password_spellings_false, {
+    password_spelling("false", false);
+    password_spelling("False", false);
+    password_spelling("FALSE", false);
+    password_spelling("0", false);
+});
